@@ -86,8 +86,44 @@ def rederive_known(k):
     return None
 
 
+class BodyGen(gens.ProcGen):
+    """ProcGen plus body vocabulary that several seeded changes needed and no generator produced (all of it is split
+    correctly by the unchanged library): GOTO, EXECUTE IMMEDIATE, COMMIT WORK / START TRANSACTION, DDL inside a body
+    (TRUNCATE / DROP / ALTER) in front of a control construct, the IF() function, and IF [NOT] EXISTS (subquery) THEN."""
+
+    def simple_stmt(self):
+        from gens import kw, nm, WS0, WS1
+        r = self.r.random()
+        if r >= 0.16:
+            return super().simple_stmt()
+        k = int(r / 0.16 * 8)
+        if k == 0:
+            return [kw('GOTO'), WS1, nm('lbl')]
+        if k == 1:
+            return [kw('EXECUTE'), WS1, kw('IMMEDIATE'), WS1] + self.string()
+        if k == 2:
+            return [kw('COMMIT'), WS1, kw('WORK')]
+        if k == 3:
+            return [kw('START'), WS1, kw('TRANSACTION')]
+        if k == 4:
+            return [kw('TRUNCATE'), WS1, kw('TABLE'), WS1, nm(self.ident_plain())]
+        if k == 5:
+            return [kw('DROP'), WS1, kw('TABLE'), WS1, nm(self.ident_plain())]
+        if k == 6:
+            return [kw('ALTER'), WS1, kw('TABLE'), WS1, nm(self.ident_plain()), WS1, kw('ADD'), WS1, nm('c9'), WS1, nm('int')]
+        return [kw('SET'), WS1, nm('v'), WS1, ('op', '='), WS1, nm('IF'), ('punct', '('), nm('a'), WS1, ('op', '>'), WS1,
+                ('lit', '0'), ('punct', ','), WS1, ('lit', '1'), ('punct', ','), WS1, ('lit', '2'), ('punct', ')')]
+
+    def cond(self, d=0):
+        from gens import kw, WS1
+        if self.r.random() < 0.12:
+            pre = [kw('NOT'), WS1] if self.r.random() < 0.4 else []
+            return pre + [kw('EXISTS'), WS1, ('punct', '(')] + self.select(2) + [('punct', ')')]
+        return super().cond(d)
+
+
 def gen_case(rng, full):
-    g = gens.ProcGen(rng, full=full)
+    g = BodyGen(rng, full=full)
     npre = rng.choice([0, 1, 2])
     npost = rng.choice([0, 1, 2])
     pre = [g.statement() for _ in range(npre)]
